@@ -70,6 +70,8 @@ inductive Cmp where
 
 inductive Ar where
   | add | sub | mul | mod
+  /-- `/` as written (0c1e34d): integer division, truncating; NULL on division by zero (sqlite) -/
+  | div
   deriving DecidableEq, Repr
 
 inductive Expr where
@@ -118,6 +120,9 @@ def evalAr : Ar → Val → Val → Val
   | .mul => liftI (· * ·)
   | .mod => fun a b => match a, b with
     | some x, some y => if y = 0 then none else some (Int.tmod x y)
+    | _, _ => none
+  | .div => fun a b => match a, b with
+    | some x, some y => if y = 0 then none else some (Int.tdiv x y)
     | _, _ => none
 
 /-- SQL `x IN (v₁, …, vₙ)`: the three-valued disjunction of `x = vᵢ` -/
@@ -209,18 +214,20 @@ def tyOf : Expr → Ty
   | .inl _ _ _ => .bool
   | .tnil => .unk
   | .tcons _ _ => .unk
+  | .ar .add _ _ => .null      -- built as `BinaryExpression(l, r, add)` without a type (374b822)
+  | .ar .div _ _ => .null      -- custom operator `/`
   | .ar o l r =>
     match tyOf l with
     | .bool => .bool
     | .int => .int
     | .unk => .unk
-    | .null => if o = .add ∨ o = .mul then tyOf r else .null
+    | .null => if o = .mul then tyOf r else .null
 
 /-- arithmetic whose SQLAlchemy type is Boolean (or a CASE, whose type is not modelled): `NOT` of it is printed by the sqlite compiler as
 `(x) = 0` (`AsBoolean … is_false`), which this model does not reproduce (same value; the execution
 probe covers it) -/
 def typedArith : Expr → Bool
-  | .ar o l r => tyOf (.ar o l r) == .bool || tyOf (.ar o l r) == .unk
+  | .ar _ _ _ => false         -- since 1f57814 `NOT (x)` is printed for these, as the model does
   | .neg e => tyOf e == .bool || tyOf e == .unk
   | .ite _ _ _ => true
   | _ => false
@@ -384,9 +391,8 @@ def saKey (k : OrderKey) : OrderKey :=
     nulls := if k.nulls = "NULLS FIRST" then "NULLS FIRST"
              else if k.nulls = "NULLS LAST" then "NULLS LAST" else "" }
 
-/-- `to_expression(WindowFunction)`: only `direction == 'DESC'` is looked at, `nulls` is dropped -/
-def saWinKey (k : OrderKey) : OrderKey :=
-  { e := saNormE k.e, dir := if k.dir = "DESC" then "DESC" else "", nulls := "" }
+/-- `to_expression(WindowFunction)`: since c20d32e exactly as `prepare_select` -/
+def saWinKey (k : OrderKey) : OrderKey := saKey k
 
 def valLe (desc nullsFirst : Bool) : Val → Val → Bool
   | none, none => true
@@ -405,12 +411,12 @@ def rowsLe (env : Env) : List OrderKey → Row → Row → Bool
     let b := eval env (rowEnv r2) k.e
     if keyLe env k a b && keyLe env k b a then rowsLe env ks r1 r2 else keyLe env k a b
 
-def insertBy (le : Row → Row → Bool) (x : Row) : Table → Table
+def insertBy {α : Type} (le : α → α → Bool) (x : α) : List α → List α
   | [] => [x]
   | y :: ys => if le x y then x :: y :: ys else y :: insertBy le x ys
 
 /-- stable insertion sort -/
-def sortBy (le : Row → Row → Bool) : Table → Table
+def sortBy {α : Type} (le : α → α → Bool) : List α → List α
   | [] => []
   | x :: xs => insertBy le x (sortBy le xs)
 
@@ -463,6 +469,10 @@ structure GSelect where
   where_ : Option Expr
   groupBy : List Expr
   having : Option (TExpr × Cmp × Int)
+  /-- ORDER BY over the group's representative row (group keys), then LIMIT / OFFSET -/
+  order : List OrderKey
+  limit : Option Nat
+  offset : Option Nat
   deriving Repr
 
 inductive Query where
@@ -526,7 +536,10 @@ def evalGSelect (env : Env) (db : Db) (g : GSelect) : Table :=
   let rows := whereRows env g.where_ (evalFrom env db g.from_)
   let gs := groupsOf env g.groupBy rows
   let gs := havingGroups env g.having gs
-  gs.map fun grp => g.targets.map (evalT env grp)
+  let gs := sortBy (fun g1 g2 => rowsLe env g.order (g1.headD []) (g2.headD [])) gs
+  let out := gs.map fun grp => g.targets.map (evalT env grp)
+  let out := match g.offset with | none => out | some n => out.drop n
+  match g.limit with | none => out | some n => out.take n
 
 def evalQuery (env : Env) (db : Db) : Query → Table
   | .select s => evalSelect env db s
@@ -563,7 +576,10 @@ def saGSelect (g : GSelect) : GSelect :=
     from_ := saFrom g.from_
     where_ := g.where_.map saNormE
     groupBy := g.groupBy.map saNormE
-    having := g.having.map fun h => (saT h.1, h.2.1, h.2.2) }
+    having := g.having.map fun h => (saT h.1, h.2.1, h.2.2)
+    order := g.order.map saKey
+    limit := g.limit
+    offset := g.offset }
 
 /-- `prepare_union`: `sa.union` / `union_all` / `intersect` / … chosen from the class and `unique` -/
 def saNorm : Query → Query
@@ -591,7 +607,8 @@ def okT : TExpr → Bool
 
 def okGSelect (g : GSelect) : Bool :=
   okFrom g.from_ && g.targets.all okT && (match g.where_ with | none => true | some c => okE c) &&
-    g.groupBy.all okE && (match g.having with | none => true | some h => okT h.1)
+    g.groupBy.all okE && (match g.having with | none => true | some h => okT h.1) &&
+    g.order.all (fun k => okE k.e)
 
 def okQ : Query → Bool
   | .select s => okSelect s
